@@ -303,14 +303,18 @@ CHECKS = {
     "C20": (True,
             "Theorems: (i) frame property - in an interleaving semantics where steps only read the shared store, every thread ends, under "
             "ANY schedule, in the state it reaches alone; (ii) instance - the write-effect summary regenerated on every run from the go/ssa "
-            "form of the package (every store, map update, copy/delete and Set*/Add*/Delete* method call whose target derives from a "
-            "package-level variable, 156 functions analysed) contains no write outside the package initialiser, by vm_compute on the "
+            "form of the package (every store, map update, copy/delete/clear, in-place sort and Set*/Add*/Delete* method call whose "
+            "target derives from a package-level variable; the derivation is followed through address arithmetic, loads, phis, local "
+            "cells and closures, and INTER-PROCEDURALLY by function summaries iterated to a fixpoint: results of the package's own "
+            "functions, parameters a function writes through - also via methods invoked through interfaces -, and struct fields into "
+            "which a package-derived pointer is stored) contains no write outside the package initialiser, by vm_compute on the "
             "generated list. Runtime half, observed only: a race-detector build of the harness runs a multiset of independent operations "
             "(6 readers, 5 writers, all transformations, read-then-convert) on 2..32 goroutines with GOMAXPROCS 2/4/16, randomized start "
             "order, and compares every result with the sequential run.",
             "Rocq frame theorem over a generated write-effect summary (translator: go/ssa) - partial; race-detector runs compared with sequential results",
-            "partial: the Go memory model, the mutex inside astikit's BiMap and heap aliasing not followed by the intra-procedural "
-            "derivation (pointers passed as parameters) are not modelled; tools/geneffects (x/tools v0.29.0 go/ssa) is trusted."),
+            "partial: the Go memory model and the mutex inside astikit's BiMap are not modelled; the analysis is field-based, not a "
+            "points-to analysis (aliasing through slices of pointers, channels, reflection or other packages' state is not followed); "
+            "the frame theorem is generic and not instantiated per function; tools/geneffects (x/tools v0.29.0 go/ssa) is trusted."),
     "C02": (True,
             "Gallina transcription of ReadFromWebVTT (header loop, block state machine, NOTE/STYLE/Region blocks, cue settings, "
             "X-TIMESTAMP-MAP), parseTextWebVTT (tag stack with classes/annotations, voices, inline timestamps, over a model of the "
